@@ -14,7 +14,7 @@ for f in ("patch.diff", "demo.py", "meta.json"):
     if os.path.exists(os.path.join(src, f)) and os.path.abspath(src) != os.path.abspath(dst):
         shutil.copy(os.path.join(src, f), os.path.join(dst, f))
 meta = json.load(open(os.path.join(dst, "meta.json"))) if os.path.exists(os.path.join(dst, "meta.json")) else {}
-wt = "/tmp/evalseed_wt"
+wt = "/tmp/evalseed_wt_%d" % os.getpid()
 subprocess.run(["git", "-C", "/repo", "worktree", "remove", "--force", wt], capture_output=True)
 subprocess.run(["git", "-C", "/repo", "worktree", "add", "-q", "--detach", wt, "HEAD"], check=True)
 def sh(cmd, cwd=None, timeout=1800):
